@@ -33,11 +33,13 @@ Step ==
      ELSE IF ev.op = "reset" THEN
         /\ NReset /\ l' = l + 1 /\ UNCHANGED <<div, pend>>
      ELSE
-        /\ CASE ev.op = "nsubmit"     -> NSubmit(ev.i, ev.t, ev.res)
-             [] ev.op = "ndelivertx"  -> NDeliverTx(TMsg(ev), ev.res)
+        /\ CASE ev.op = "ndeliverblk" /\ ev.b \notin 1..n ->      \* names a block nobody has: nothing happens
+                  (UNCHANGED <<blk, n, known, tip, npool, nInsH, nInsB, bmsgs, tmsgs, lost>> /\ Unused /\ Log([op |-> ev.op, res |-> "noblock"]))
+             [] ev.op = "nsubmit"     -> NSubmit(ev.i, ev.t, ev.res)
+             [] ev.op = "ndelivertx"  -> NDeliverTxX(TMsg(ev), ev.res, FALSE)
              [] ev.op = "ndroptx"     -> NDropTx(TMsg(ev))
              [] ev.op = "nmine"       -> MineAny(ev.i, ev.txs)
-             [] ev.op = "ndeliverblk" -> NDeliverBlk(BMsg(ev), Range(ev.obs[CHOOSE k \in DOMAIN NodeSeq : NodeSeq[k] = ev.to].pool))
+             [] ev.op = "ndeliverblk" -> NDeliverBlkX(BMsg(ev), Range(ev.obs[CHOOSE k \in DOMAIN NodeSeq : NodeSeq[k] = ev.to].pool), FALSE)
              [] ev.op = "ndropblk"    -> NDropBlk(BMsg(ev))
              [] ev.op = "nrestart"    -> NRestart(ev.i)
         /\ pend' = hist'[Len(hist')].res
